@@ -71,7 +71,7 @@ def run(module: str, cfg_text: str, *, tag: str, env: dict | None = None, heap: 
     work.mkdir(parents=True)
     cfg = work / f"{module}.cfg"
     cfg.write_text(cfg_text)
-    cmd = ["java", "-XX:+UseSerialGC", "-Xms256m", f"-Xmx{heap}", "-Xss16m", "-XX:CICompilerCount=2",
+    cmd = ["java", "-XX:+UseSerialGC", "-Xms256m", f"-Xmx{heap}", "-Xss128m", "-XX:CICompilerCount=2",
            "-XX:-UsePerfData",
            f"-DTLA-Library={spec_dir}", "-cp", JARS,
            "tlc2.TLC", "-workers", str(workers), "-metadir", str(work / "meta"), "-noGenerateSpecTE",
